@@ -24,6 +24,7 @@ structure Inv (s : State) (m : Nat → Nat) (pend : Nat → Nat → Prop) : Prop
     cget s.counter (aidOf s o) = 0 →
     wOf s o = false ∧ ∃ b, baseOf s o = some b ∧ aidOf s o ∈ wget s.waiting (aidOf s b) ∧
       (0 < cget s.counter (aidOf s b) ∨ pend b (aidOf s o))
+  trkLt : ∀ i t, lookup i s.tracker = some t → t < s.arrs.length
 
 theorem arr_of_alive {s : State} {o : Nat} (h : isAlive s o = true) :
     ∃ a, s.arrs[o]? = some a ∧ a.alive = true := by
@@ -87,20 +88,22 @@ structure SameStatic (s s' : State) : Prop where
   aid : ∀ x, aidOf s' x = aidOf s x
   base : ∀ x, baseOf s' x = baseOf s x
   orig : ∀ x, origOf s' x = origOf s x
+  len : s'.arrs.length = s.arrs.length
 
-theorem SameStatic.refl (s : State) : SameStatic s s := ⟨fun _ => rfl, fun _ => rfl, fun _ => rfl, fun _ => rfl⟩
+theorem SameStatic.refl (s : State) : SameStatic s s :=
+  ⟨fun _ => rfl, fun _ => rfl, fun _ => rfl, fun _ => rfl, rfl⟩
 
 theorem SameStatic.trans {s1 s2 s3 : State} (h12 : SameStatic s1 s2) (h23 : SameStatic s2 s3) :
     SameStatic s1 s3 :=
   ⟨fun x => (h23.alive x).trans (h12.alive x), fun x => (h23.aid x).trans (h12.aid x),
-   fun x => (h23.base x).trans (h12.base x), fun x => (h23.orig x).trans (h12.orig x)⟩
+   fun x => (h23.base x).trans (h12.base x), fun x => (h23.orig x).trans (h12.orig x), h23.len.trans h12.len⟩
 
 theorem sameStatic_modArr (s : State) (o : Nat) (f : Arr → Arr) (hf : FlagOnly f) :
     SameStatic s (modArr s o f) :=
-  ⟨isAlive_modArr s o f hf, aidOf_modArr s o f hf, baseOf_modArr s o f hf, origOf_modArr s o f hf⟩
+  ⟨isAlive_modArr s o f hf, aidOf_modArr s o f hf, baseOf_modArr s o f hf, origOf_modArr s o f hf, length_modArr s o f⟩
 
 theorem sameStatic_of_arrs {s s' : State} (h : s'.arrs = s.arrs) : SameStatic s s' :=
-  ⟨isAlive_congr h, aidOf_congr h, baseOf_congr h, origOf_congr h⟩
+  ⟨isAlive_congr h, aidOf_congr h, baseOf_congr h, origOf_congr h, by rw [h]⟩
 
 /-- the effect of a counted `lock` on an array whose original flag is writeable, pointwise -/
 theorem inv_lock_core {s s' : State} {m : Nat → Nat} {P : Nat → Nat → Prop} (hI : Inv s m P) {o : Nat}
@@ -193,6 +196,14 @@ theorem inv_lock_core {s s' : State} {m : Nat → Nat} {P : Nat → Nat → Prop
           · simp [hb]
           · simp only [hb, ↓reduceIte]; exact h
         · right; exact h
+  · intro i t hl
+    rw [hS.len]
+    rw [ht] at hl
+    by_cases hi : i = aidOf s o
+    · simp only [hi, ↓reduceIte, Option.some.injEq] at hl
+      rw [← hl]; exact isAlive_lt ho
+    · simp only [hi, ↓reduceIte] at hl
+      exact hI.trkLt i t hl
 
 theorem Inv.congr_m {s : State} {m m' : Nat → Nat} {P : Nat → Nat → Prop} (hI : Inv s m P)
     (h : ∀ x, isAlive s x = true → origOf s x = true → m' x = m x) : Inv s m' P := by
